@@ -1,7 +1,25 @@
-"""C17 — flattening or dropping a level equals mapping on the reduced taxonomy."""
-import json
+"""C17 — flattening or dropping a level equals mapping on the reduced taxonomy.
 
-from harness import pipeline, paired, mapcheck, trees
+Three ties:
+ (i)   function level: the REAL TaxonomyTree.backfill_assignments (and the real
+       drop_level / flatten under the guard of _run_mapping) on generated (stored tree,
+       reduced-tree records) vs Model/RunMapping.v (reduce 1702, backfill 1701,
+       reduce+place+backfill 1703), plus the predicate spec_c17 (1704) on the real output;
+ (ii)  election level: the real election.run_type_assignment with a table-driven oracle on
+       the really reduced tree, marked directly_assigned, really backfilled, vs
+       run_mapping_model with the table-driven decide (1705);
+ (iii) pipeline level: paired REAL run_mapping runs with a common seed (drop_level=L vs a
+       statistics file holding the model's drop_level t L; flatten vs a one-level taxonomy;
+       an absent level), compared bitwise at the shared levels; run B's records pushed
+       through the model (1703) must give run A's complete output; spec_c17 on run A."""
+import copy
+import json
+from fractions import Fraction
+
+from harness import pipeline, paired, mapcheck, trees, routing
+
+E_KEY = 6          # Tree.E_KEY (KeyError)
+TREE_ERR = {'flat': 1, 'nolevel': 2, 'leaf': 3, 'invalid': 4}
 
 
 def model_to_data(levels, model, gt):
@@ -14,12 +32,429 @@ def model_to_data(levels, model, gt):
     return data
 
 
-def run(ctx):
+# ------------------------------------------------------------------ canonical forms
+def fr(x):
+    f = Fraction(float(x))
+    return [f.numerator, f.denominator]
+
+
+RUNNER_KEYS = ('runner_up_assignment', 'runner_up_correlation', 'runner_up_probability')
+PLAIN_KEYS = ('assignment', 'bootstrapping_probability', 'avg_correlation', 'aggregate_probability',
+              'directly_assigned')
+
+
+def canon_orec(r):
+    """One output record -> the model's orec wire form; None if the record has a key set the
+    model cannot express (reported by the caller)."""
+    keys = set(r.keys())
+    ru = [k for k in keys if k.startswith('runner_up')]
+    if set(ru) not in (set(), set(RUNNER_KEYS)) or keys - set(ru) != set(PLAIN_KEYS):
+        return None
+    c = r['avg_correlation']
+    corr = [] if c is None else [fr(c)]
+    if ru:
+        runners = [[[trees.GenTree.num(a), fr(p), fr(co)]
+                    for a, p, co in zip(r['runner_up_assignment'], r['runner_up_probability'],
+                                        r['runner_up_correlation'])]]
+        if not (len(r['runner_up_assignment']) == len(r['runner_up_probability']) == len(r['runner_up_correlation'])):
+            return None
+    else:
+        runners = []
+    if not isinstance(r['directly_assigned'], bool):
+        return None
+    return [trees.GenTree.num(r['assignment']), fr(r['bootstrapping_probability']), corr,
+            fr(r['aggregate_probability']), runners, 1 if r['directly_assigned'] else 0]
+
+
+def canon_cell(levels, cell, ordered=True):
+    """dict {level name: record} -> [[stored level index, orec] ...] in dict order (or by level)."""
+    out = []
+    for k, v in cell.items():
+        if k not in levels:
+            if k == 'cell_id':
+                continue
+            return None
+        o = canon_orec(v)
+        if o is None:
+            return None
+        out.append([levels.index(k), o])
+    if not ordered:
+        out.sort(key=lambda e: e[0])
+    return out
+
+
+def red_fracs(cells):
+    """reduce the model's fractions (they are copied verbatim, so this is the identity on
+    reduced input; kept for safety)."""
+    def red(f):
+        q = Fraction(f[0], f[1])
+        return [q.numerator, q.denominator]
+    out = []
+    for cell in cells:
+        nc = []
+        for k, (a, p, c, g, rs, d) in cell:
+            nc.append([k, [a, red(p), [red(x) for x in c], red(g),
+                           [[[o, red(rp), red(rc)] for o, rp, rc in rs[0]]] if rs else [], d]])
+        out.append(nc)
+    return out
+
+
+def canon_tree(tt, gt):
+    """a real TaxonomyTree -> the model's wire form, dict order kept."""
+    out = []
+    h = tt.hierarchy
+    for lv in h:
+        d = tt._data[lv]
+        if lv == h[-1]:
+            out.append([[gt.num(n), [int(r) for r in rows]] for n, rows in d.items()])
+        else:
+            out.append([[gt.num(n), [gt.num(c) for c in kids]] for n, kids in d.items()])
+    return out
+
+
+# ------------------------------------------------------------------ the code under test
+def real_reduce(tt, drop_name, flatten):
+    """The reduction of _run_mapping (from_specified_markers.py lines 272-274, 293-295) on a real
+    TaxonomyTree. Returns ('ok', reduced TaxonomyTree) or ('err', code)."""
+    try:
+        if drop_name is not None:
+            if drop_name in tt.hierarchy:
+                tt = tt.drop_level(drop_name)
+        if flatten:
+            tt = tt.flatten()
+        return 'ok', tt
+    except RuntimeError as e:
+        msg = str(e)
+        if 'It is flat' in msg:
+            return 'err', TREE_ERR['flat']
+        if 'not in the hierarchy' in msg:
+            return 'err', TREE_ERR['nolevel']
+        if 'That is the leaf level' in msg:
+            return 'err', TREE_ERR['leaf']
+        return 'err', TREE_ERR['invalid']
+
+
+def real_backfill(tt_full, assignments):
+    """tree_for_metadata.backfill_assignments(result) exactly as _run_mapping builds the tree."""
+    from cell_type_mapper.taxonomy.taxonomy_tree import TaxonomyTree
+    stored = TaxonomyTree(data=json.loads(tt_full.to_str(drop_cells=True)))
+    try:
+        return 'ok', stored.backfill_assignments(assignments)
+    except KeyError:
+        return 'err', E_KEY
+
+
+# ------------------------------------------------------------------ generators
+def dyadic(rng, lo, hi, den):
+    return rng.randrange(lo, hi + 1) / den
+
+
+def gen_voted_record(rng, gt, li, node):
+    others = [n for n, _ in gt.model[li] if n != node]
+    rng.shuffle(others)
+    nr = rng.randrange(0, min(3, len(others)) + 1)
+    return {'assignment': gt.name(node),
+            'bootstrapping_probability': dyadic(rng, 1, 64, 64),
+            'avg_correlation': dyadic(rng, -64, 64, 64),
+            'aggregate_probability': dyadic(rng, 1, 4096, 4096),
+            'runner_up_assignment': [gt.name(o) for o in others[:nr]],
+            'runner_up_correlation': [dyadic(rng, -64, 64, 64) for _ in range(nr)],
+            'runner_up_probability': [dyadic(rng, 1, 32, 64) for _ in range(nr)],
+            'directly_assigned': True}
+
+
+def random_path(rng, gt):
+    """a root-to-leaf path of the stored tree: node per level, top first."""
+    leaf = rng.choice([n for n, _ in gt.model[-1]])
+    path = [leaf]
+    for li in range(len(gt.model) - 1, 0, -1):
+        path.append(mapcheck.parent_of(gt.model, li, path[-1]))
+    path.reverse()
+    return path
+
+
+def rec_to_election_wire(r):
+    """a voted record -> Election.sx_rec_out form (asg prob corr runners agg)."""
+    runners = [[trees.GenTree.num(a), fr(p), fr(co)]
+               for a, p, co in zip(r['runner_up_assignment'], r['runner_up_probability'], r['runner_up_correlation'])]
+    c = r['avg_correlation']
+    return [trees.GenTree.num(r['assignment']), fr(r['bootstrapping_probability']),
+            [] if c is None else [fr(c)], runners, fr(r['aggregate_probability'])]
+
+
+def gen_trees(ctx, rng):
+    out = []
+    for sh in trees.enumerate_shapes(4, ctx.n(4, 6)):
+        rpl = rng.choice([0, 0, 1, 2])
+        out.append(trees.one_level(sh[1], rng, rpl) if sh and sh[0] == 'flat' else trees.build(sh, rng, rpl))
+    for _ in range(ctx.n(60, 1500)):
+        out.append(trees.random_tree(rng, max_levels=rng.choice([3, 4, 5, 6]), max_leaves=rng.choice([8, 20, 40]),
+                                     rows_per_leaf=rng.choice([0, 1])))
+    return out
+
+
+def modes_for(rng, n):
+    """(drop index | None, flatten) configurations: none, every droppable level, flatten,
+    drop+flatten, the leaf level (rejected), an absent level."""
+    ms = [(None, False), (None, True), (n, False), (n + rng.randrange(0, 3), True)]
+    for li in range(n - 1):
+        ms.append((li, False))
+    if n >= 2:
+        ms.append((rng.randrange(0, n - 1), True))
+    ms.append((n - 1, rng.random() < 0.3))       # the leaf level / a flat tree: RuntimeError
+    return ms
+
+
+# ------------------------------------------------------------------ (i) function level
+def function_part(ctx):
+    from cell_type_mapper.taxonomy.taxonomy_tree import TaxonomyTree
     rng = ctx.rng
-    ctx.rule = ('paired real run_mapping runs with a common seed: drop_level=L vs a statistics file whose taxonomy is the '
-                "model's drop_level t L (tag 1004); flatten vs a one-level taxonomy with the sorted union of all marker lists; "
-                'a level absent from the taxonomy vs no drop; compared bitwise at the shared levels, dropped level = parent of '
-                'the finer assignment, flagged inferred; non-trivial = a pair on a tree with >= 2 levels')
+    cases = []
+    for gt in gen_trees(ctx, rng):
+        n = len(gt.levels)
+        tt = TaxonomyTree(data=gt.data)
+        ms = modes_for(rng, n)
+        if len(ms) > 6:
+            keep = ms[:3] + rng.sample(ms[3:], 3)
+        else:
+            keep = ms
+        for drop, flat in keep:
+            drop_name = None if drop is None else (gt.levels[drop] if drop < n else f'no_such_level_{drop}')
+            cases.append({'gt': gt, 'tt': tt, 'drop': drop, 'flat': flat, 'drop_name': drop_name, 'kind': 'cfg'})
+        # arbitrary presence patterns (not what the election produces): the loop structure itself
+        for _ in range(2):
+            present = [k for k in range(n) if rng.random() < 0.55]
+            cases.append({'gt': gt, 'tt': tt, 'kind': 'pattern', 'present': present,
+                          'bad': rng.random() < 0.25})
+    # ---- reduce: real vs model
+    red = ctx.model([(1702, [c['gt'].model, [] if c['drop'] is None else [c['drop']], c['flat']])
+                     for c in cases if c['kind'] == 'cfg'])
+    it = iter(red)
+    back_cases, back_idx = [], []
+    for ci, c in enumerate(cases):
+        gt = c['gt']
+        n = len(gt.levels)
+        desc = {'kind': 'function-level', 'tree': gt.data}
+        if c['kind'] == 'cfg':
+            m = next(it)
+            desc.update({'drop': c['drop'], 'drop_name': c['drop_name'], 'flatten': c['flat']})
+            st, rt = real_reduce(c['tt'], c['drop_name'], c['flat'])
+            c['desc'] = desc
+            ctx.dist('fn_mode', ('none' if c['drop'] is None else 'drop' if c['drop'] < n - 1 else
+                                 'drop-leaf(rejected)' if c['drop'] == n - 1 else 'absent')
+                     + ('+flatten' if c['flat'] else ''))
+            if st == 'err':
+                ctx.count(('fn-reduce-err', gt.shape_key(), c['drop'], c['flat']), nontrivial=False)
+                if m != [1, rt]:
+                    desc['class'] = 'corr:RunMapping.reduce'
+                    desc['model'], desc['impl'] = m, ['err', rt]
+                    ctx.violation('reduce: the code rejects the configuration, the model does not agree', desc, no_input=True)
+                c['skip'] = True
+                continue
+            voted_names = rt.hierarchy
+            obs = [canon_tree(rt, gt), [gt.levels.index(x) for x in voted_names]]
+            if m[0] != 0 or m[1] != obs:
+                ctx.count(('fn-reduce', gt.shape_key(), c['drop'], c['flat']), nontrivial=False)
+                desc['class'] = 'corr:RunMapping.reduce'
+                desc['model'], desc['impl'] = m, obs
+                ctx.disagreements_checked += 1
+                ctx.violation('reduce: reduced tree / level map differ between code and model', desc, no_input=True)
+                c['skip'] = True
+                continue
+            c['voted'] = obs[1]
+            # records as the election produces them: a path of the stored tree, voted levels only
+            assignments = []
+            for i in range(rng.randrange(1, 4)):
+                path = random_path(rng, gt)
+                cell = {'cell_id': f'c{i}'}
+                for k in c['voted']:
+                    cell[gt.levels[k]] = gen_voted_record(rng, gt, k, path[k])
+                assignments.append(cell)
+        else:
+            assignments = []
+            for i in range(rng.randrange(1, 3)):
+                path = random_path(rng, gt)
+                cell = {'cell_id': f'c{i}'}
+                order = list(c['present'])
+                rng.shuffle(order)
+                for k in order:
+                    cell[gt.levels[k]] = gen_voted_record(rng, gt, k, path[k])
+                assignments.append(cell)
+            if c['bad'] and c['present']:
+                # an assignment that is not a node of the stored tree: KeyError if a parent is asked for
+                k = rng.choice(c['present'])
+                assignments[0][gt.levels[k]]['assignment'] = gt.name(997)
+            desc.update({'present': c['present'], 'bad': c['bad']})
+            c['desc'] = desc
+            ctx.dist('fn_mode', 'pattern' + ('+bad-node' if c['bad'] else ''))
+        c['input'] = copy.deepcopy(assignments)
+        desc['assignments'] = c['input']
+        cin = [canon_cell(gt.levels, cell) for cell in assignments]
+        c['obs'] = real_backfill(c['tt'], assignments)
+        back_cases.append((1701, [gt.model, cin]))
+        back_idx.append(ci)
+    bres = dict(zip(back_idx, ctx.model(back_cases)))
+    # ---- reduce + place + backfill from the election's records, and the predicate
+    pb_cases, pb_idx, sp_cases, sp_idx = [], [], [], []
+    for ci, c in enumerate(cases):
+        if ci not in bres:
+            continue
+        gt = c['gt']
+        if c['kind'] == 'cfg':
+            rows = [[rec_to_election_wire(cell[gt.levels[k]]) for k in c['voted']] for cell in c['input']]
+            pb_cases.append((1703, [gt.model, [] if c['drop'] is None else [c['drop']], c['flat'], rows]))
+            pb_idx.append(ci)
+            if c['obs'][0] == 'ok':
+                oc = [canon_cell(gt.levels, cell) for cell in c['obs'][1]]
+                if all(x is not None for x in oc):
+                    sp_cases.append((1704, [gt.model, c['voted'], len(oc), oc]))
+                    sp_idx.append(ci)
+    pres = dict(zip(pb_idx, ctx.model(pb_cases)))
+    sres = dict(zip(sp_idx, ctx.model(sp_cases)))
+    for ci, c in enumerate(cases):
+        if ci not in bres:
+            continue
+        gt, desc = c['gt'], c['desc']
+        n = len(gt.levels)
+        m = bres[ci]
+        if c['kind'] == 'cfg':
+            key = ('fn', gt.shape_key(), c['drop'], c['flat'], json.dumps(c['input'], sort_keys=True))
+            nontrivial = n >= 2 and len(c['voted']) < n
+        else:
+            key = ('fn-pattern', gt.shape_key(), tuple(c['present']), c['bad'])
+            nontrivial = False
+        ctx.count(key, nontrivial=nontrivial)
+        if nontrivial:
+            ctx.sample({'tree': gt.data, 'drop': c['drop_name'], 'flatten': c['flat'], 'n_cells': len(c['input'])}, limit=3)
+        if c['obs'][0] == 'err':
+            ctx.dist('fn_outcome', 'KeyError')
+            if m != [1, c['obs'][1]]:
+                ctx.disagreements_checked += 1
+                desc['class'] = 'corr:RunMapping.backfill'
+                desc['model'], desc['impl'] = m, list(c['obs'])
+                ctx.violation('backfill: the code raised KeyError, the model did not', desc, no_input=True)
+            if c['kind'] == 'cfg':
+                # records consistent with the reduced tree must always be completed
+                desc['class'] = 'c17-backfill-raises'
+                ctx.violation('backfill_assignments raised on records the election can produce', desc)
+            continue
+        ctx.dist('fn_outcome', 'ok')
+        oc = [canon_cell(gt.levels, cell) for cell in c['obs'][1]]
+        if any(x is None for x in oc):
+            ctx.disagreements_checked += 1
+            desc['class'] = 'c17-record-keys'
+            desc['impl'] = c['obs'][1]
+            ctx.violation('a completed record has keys other than those of the voted record minus runner_up_* '
+                          '(or a partial runner_up_* set)', desc)
+            continue
+        # (b) the property's predicate on the real output first, then (a) the correspondences
+        if c['kind'] == 'cfg' and sres.get(ci) != [0, 1]:
+            ctx.disagreements_checked += 1
+            desc['class'] = 'c17-spec'
+            desc['impl'] = oc
+            ctx.violation('spec_c17 fails on the real backfill_assignments output: not a complete path of the stored '
+                          'tree with inferred levels = parent of the finer level, flagged, numbers copied, no runner-ups',
+                          desc)
+            continue
+        if m[0] != 0 or red_fracs(m[1]) != oc:
+            ctx.disagreements_checked += 1
+            desc['class'] = 'corr:RunMapping.backfill'
+            desc['model'], desc['impl'] = m, oc
+            ctx.violation('backfill_assignments and its model disagree (assignments / flags / copied fields / '
+                          'runner-up keys / key order)', desc, no_input=True)
+            continue
+        if c['kind'] != 'cfg':
+            continue
+        p = pres[ci]
+        if p[0] != 0 or red_fracs(p[1]) != oc:
+            ctx.disagreements_checked += 1
+            desc['class'] = 'corr:RunMapping.place_backfill'
+            desc['model'], desc['impl'] = p, oc
+            ctx.violation('reduce+place+backfill of the model differs from the real backfill of the same records',
+                          desc, no_input=True)
+
+
+# ------------------------------------------------------------------ (ii) election level
+def election_part(ctx):
+    from cell_type_mapper.taxonomy.taxonomy_tree import TaxonomyTree
+    rng = ctx.rng
+    recs = []
+    pool = gen_trees(ctx, rng)
+    rng.shuffle(pool)
+    for gt in pool[:ctx.n(150, 3000)]:
+        n = len(gt.levels)
+        if n < 2:
+            continue
+        ms = [(li, False) for li in range(n - 1)] + [(None, True)]
+        if rng.random() < 0.2:
+            ms.append((rng.randrange(0, n - 1), True))
+        drop, flat = rng.choice(ms)
+        tt = TaxonomyTree(data=gt.data)
+        st, rt = real_reduce(tt, None if drop is None else gt.levels[drop], flat)
+        if st != 'ok':
+            continue
+        rgt = trees.GenTree(rt.hierarchy, json.loads(rt.to_str()), canon_tree(rt, gt))
+        cell_ids = rng.sample(range(100), rng.randrange(1, 6))
+        table = routing.gen_choices(rng, rgt, cell_ids)
+        desc = {'kind': 'election-level', 'tree': gt.data, 'drop': drop, 'flatten': flat, 'cell_ids': cell_ids,
+                'choices': [[str(kk), str(v)] for kk, v in table.items()]}
+        try:
+            res, ncalls = routing.run_impl(rgt, cell_ids, table)
+            # election_runner.run_type_assignment_on_h5ad, lines 106-108
+            for cell in res:
+                for level in rt.hierarchy:
+                    cell[level]['directly_assigned'] = True
+            st2, out = real_backfill(tt, res)
+            obs = ('ok', [canon_cell(gt.levels, cell) for cell in out], ncalls) if st2 == 'ok' else ('err', 'KeyError', None)
+        except Exception as e:
+            obs = ('err', f'{type(e).__name__}: {e}'[:300], None)
+        mcase = routing.model_case(rgt, cell_ids, table)[1]
+        recs.append((gt, drop, flat, rt, cell_ids, desc, obs,
+                     (1705, [gt.model, [] if drop is None else [drop], flat, list(cell_ids), mcase[2]])))
+    mres = ctx.model([r[-1] for r in recs])
+    spec_cases, spec_idx = [], []
+    for k, (gt, drop, flat, rt, cell_ids, desc, obs, _) in enumerate(recs):
+        if obs[0] == 'ok' and all(x is not None for x in obs[1]):
+            spec_cases.append((1704, [gt.model, [gt.levels.index(x) for x in rt.hierarchy], len(cell_ids), obs[1]]))
+            spec_idx.append(k)
+    sres = dict(zip(spec_idx, ctx.model(spec_cases)))
+    for k, ((gt, drop, flat, rt, cell_ids, desc, obs, _), m) in enumerate(zip(recs, mres)):
+        nontrivial = any(len(c) >= 2 for lv in gt.model[:-1] for _, c in lv)
+        ctx.count(('el', gt.shape_key(), drop, flat, tuple(cell_ids)), nontrivial=nontrivial)
+        ctx.dist('el_mode', ('drop' if drop is not None else '') + ('flatten' if flat else ''))
+        if obs[0] == 'err':
+            ctx.disagreements_checked += 1
+            desc['class'] = 'c17-election-raises'
+            desc['impl'] = obs[1]
+            ctx.violation(f'election on the reduced tree + backfill raised {obs[1]}', desc)
+            continue
+        if any(x is None for x in obs[1]):
+            desc['class'] = 'c17-record-keys'
+            ctx.violation('a completed record has an unexpected key set', desc)
+            continue
+        if sres.get(k) != [0, 1]:
+            ctx.disagreements_checked += 1
+            desc['class'] = 'c17-spec'
+            desc['impl'] = obs[1]
+            ctx.violation('spec_c17 fails on election(reduced tree) + backfill(stored tree)', desc)
+            continue
+        if m[0] != 0 or red_fracs(m[1][0]) != obs[1] or m[1][1] != obs[2]:
+            ctx.disagreements_checked += 1
+            desc['class'] = 'corr:RunMapping.run_mapping_model'
+            desc['model'], desc['impl'] = m if len(json.dumps(m)) < 4000 else 'omitted', obs[1]
+            ctx.violation('run_mapping_model (table-driven decide) and the real election+backfill disagree',
+                          desc, no_input=True)
+
+
+# ------------------------------------------------------------------ (iii) pipeline level
+def out_cells(gt, res, cell_ids):
+    """results of a real run -> canonical cells, levels sorted (the JSON writer is not the subject)."""
+    by = paired.by_cell(res)
+    return [canon_cell(gt.levels, by[cid], ordered=False) for cid in cell_ids]
+
+
+def pipeline_part(ctx):
+    rng = ctx.rng
     n = ctx.n(14, 200)
     for k in range(n):
         sc = pipeline.gen_scenario(rng, max_levels=5, max_leaves=8, n_cells=rng.randrange(2, 8))
@@ -55,6 +490,7 @@ def run(ctx):
                 rdata = model_to_data(rlevels, m[1], gt)
                 rb = paired.run_once(ctx, sc, f'b{k}_{li}', tree_data=rdata, **var)
                 shared = rlevels
+                mcfg = ([li], False)
             elif mode == 'flatten':
                 va = dict(var); va['flatten'] = True
                 ra = paired.run_once(ctx, sc, f'a{k}_f', **va)
@@ -62,11 +498,13 @@ def run(ctx):
                 union = sorted(set(g for v in sc.markers.values() for g in v), key=lambda g: pipeline.gname(g))
                 rb = paired.run_once(ctx, sc, f'b{k}_f', tree_data=rdata, markers={'None': union}, **var)
                 shared = [gt.levels[-1]]
+                mcfg = ([], True)
             else:
                 va = dict(var); va['drop_level'] = lv
                 ra = paired.run_once(ctx, sc, f'a{k}_x', **va)
                 rb = paired.run_once(ctx, sc, f'b{k}_x', **var)
                 shared = gt.levels
+                mcfg = ([len(gt.levels)], False)          # an index that is not a level
             if not ra['ok'] or not rb['ok']:
                 dd['class'] = 'c17-run-raises'
                 dd['error'] = [ra['error'], rb['error']]
@@ -103,8 +541,56 @@ def run(ctx):
                 ctx.disagreements_checked += 1
                 dd['class'] = f'c17-{mode}'
                 ctx.violation(f'{mode} {lv}: {bad}', dd)
+                continue
+            # run A's complete output = the model's reduce/place/backfill of run B's records,
+            # and the property's predicate on run A
+            oa = out_cells(gt, ra, sc.cell_ids)
+            if any(x is None for x in oa):
+                dd['class'] = 'c17-record-keys'
+                ctx.violation(f'{mode} {lv}: a record of the output has an unexpected key set', dd)
+                continue
+            rows = [[rec_to_election_wire(b[cid][x]) for x in shared] for cid in sc.cell_ids]
+            voted = [gt.levels.index(x) for x in shared]
+            mm, sp = ctx.model([(1703, [gt.model, mcfg[0], mcfg[1], rows]),
+                                (1704, [gt.model, voted, len(sc.cell_ids), oa])])
+            if sp != [0, 1]:
+                ctx.disagreements_checked += 1
+                dd['class'] = 'c17-spec'
+                ctx.violation(f'{mode} {lv}: spec_c17 fails on the output of the real run', dd)
+            elif mm[0] != 0 or [sorted(c, key=lambda e: e[0]) for c in red_fracs(mm[1])] != oa:
+                ctx.disagreements_checked += 1
+                dd['class'] = 'corr:RunMapping.place_backfill'
+                dd['model'], dd['impl'] = mm, oa
+                ctx.violation(f'{mode} {lv}: the model\'s completion of run B\'s records is not run A\'s output',
+                              dd, no_input=True)
         if k < 2:
             ctx.sample({'tree': gt.data, 'markers': sc.markers, 'config': var, 'modes': [list(m) for m in modes[:3]]})
+
+
+def run(ctx):
+    ctx.rule = ('(i) real drop_level/flatten under the guard of _run_mapping and real backfill_assignments on every tree '
+                'shape with <=4 levels and <=4 (quick) / <=6 (thorough) leaves plus random larger trees x {no reduction, '
+                'every droppable level, flatten, drop+flatten, leaf level, absent level} x random paths with dyadic numbers, '
+                'vs reduce/backfill/place of Model/RunMapping.v and spec_c17 on the real output; also arbitrary '
+                'presence patterns and foreign node names (KeyError); non-trivial = >=2 levels and >=1 level inferred, '
+                'distinct by (shape, configuration, records). (ii) real election with a table-driven oracle on the really '
+                'reduced tree + real backfill vs run_mapping_model; non-trivial = some parent with >=2 children. '
+                '(iii) paired real run_mapping runs with a common seed: drop_level=L vs a statistics file whose taxonomy is '
+                "the model's drop_level t L (tag 1004); flatten vs a one-level taxonomy with the sorted union of all marker "
+                'lists; a level absent from the taxonomy vs no drop; compared bitwise at the shared levels, dropped level = '
+                'parent of the finer assignment, flagged inferred; run B pushed through the model must give run A; '
+                'non-trivial = a pair on a tree with >= 2 levels')
+    ctx.assumptions += [
+        'level names are positions in the stored hierarchy; a drop_level name that is not in the hierarchy is an index >= the number of levels',
+        'the marker cache and the bootstrapped vote are abstract in the theorems (any decision procedure that depends only on '
+        'the reduced tree and the marker table); chunking, worker scheduling and re_order_blob are not part of RunMapping.v '
+        '(C01/C04) but are inside the paired real runs',
+        'generated probabilities/correlations are dyadic floats so that float -> exact rational conversion loses nothing; '
+        'the pipeline-level comparison is bitwise on the JSON floats',
+    ]
+    function_part(ctx)
+    election_part(ctx)
+    pipeline_part(ctx)
 
 
 def replay(ctx, rec):
